@@ -303,8 +303,9 @@ def run():
     for g in graphs:
         cyc = is_cyclic(g)
         for (e, s, c, i) in (r.sample(combos, per_graph) if per_graph < len(combos) else combos):
-            if e in ("json", "ast", "pickle") and (c, i) != (False, False):
-                continue       # json.build_tree / the AST and pickle entry points have no cycle options
+            if e in ("json", "ast", "pickle") and (c, i) != (False, False) and (cyc or e != "json"):
+                continue       # json.build_tree / the AST and pickle entry points have no cycle options (json.build_tree takes
+                               # the options object all the same: for ACYCLIC graphs every setting must give the value)
             if e in ("ast", "pickle"):
                 kinds_g = {nd["kind"] for nd in g}
                 refs = [t_ for nd in g for t_ in nd["kids"] if t_ > 0]
